@@ -207,7 +207,69 @@ def gen_three_level_case(rng):
     return spec
 
 
+def fi_nested_cases(ctx, bt, n):
+    """a fixed-income book inside a fixed-income book: the child is a generated fixed-income program (its own schedule, weights and
+    notional series, coupons, holding costs, spreads or commissions), the parent re-sizes it on its own schedule to a notional series
+    of its own.  The child's index is the index of the same definition run alone, and is what the parent sees in its universe."""
+    import pandas as pd
+    from . import C17 as FI
+    for _ in range(n):
+        spec = FI.gen_program(ctx.rng)
+        T = len(spec["dates"])
+        top = {"sched": ctx.rng.choice(["RunDaily", "RunWeekly", "RunDaily"]), "w": ctx.rng.choice([1.0, 1.0, 0.5, 2.0, -1.0]),
+               "notional": [float(ctx.rng.choice([500, 2000, 40000, 40000, 300000])) for _ in range(T)]}
+        if ctx.rng.random() < 0.5:       # piecewise constant: re-sized a few times
+            k = sorted(ctx.rng.sample(range(T), min(T, 3)))
+            v = top["notional"][0]
+            for i in range(T):
+                if i in k:
+                    v = top["notional"][i]
+                top["notional"][i] = v
+        rd = {"fi_nested": {"kid": spec, "top": top}}
+        ctx.evaluations += 1
+        a = bt.algos
+        try:
+            s, data, add, kw = FI.program_parts(bt, spec)
+            alone = bt.Backtest(s, data, integer_positions=spec["integer"], additional_data=add, progress_bar=False, **kw)
+            alone.run()
+        except Exception as e:  # noqa
+            ctx.count("fi-nested:standalone-raised:" + E.classify_exc(e))
+            continue
+        try:
+            s, data, add, kw = FI.program_parts(bt, spec)
+            add = dict(add)
+            add["top_notional"] = pd.Series(top["notional"], index=pd.DatetimeIndex(spec["dates"]))
+            sched = {"RunDaily": a.RunDaily(), "RunWeekly": a.RunWeekly()}[top["sched"]]
+            t = bt.FixedIncomeStrategy("top", algos=[sched, a.WeighSpecified(fi=top["w"]), a.SetNotional("top_notional"), a.Rebalance()], children=[s])
+            nested = bt.Backtest(t, data, integer_positions=spec["integer"], additional_data=add, progress_bar=False, **kw)
+            nested.run()
+        except Exception as e:  # noqa
+            ctx.count("fi-nested:nested-raised:" + E.classify_exc(e))
+            continue
+        ctx.count("fi-nested:compared")
+        kid = nested.strategy["fi"]
+        ctx.count("fi-nested:child-resized-by-parent" if len(set(np.round(np.asarray(kid.notional_values.values, dtype=float), 6))) > 2 else "fi-nested:child-size-constant")
+        ctx.classes.add(("fi-nested", tuple(spec["kinds"]), spec["sched"], top["sched"], top["w"], spec["integer"], spec["comm"][0], spec["bidoffer"]))
+        cp = np.asarray(kid.prices.values, dtype=float)
+        sp = np.asarray(alone.strategy.prices.values, dtype=float)
+        if len(cp) != len(sp):
+            ctx.violation("C09/length", "fixed-income child has %d index rows, stand-alone %d" % (len(cp), len(sp)), rd)
+            continue
+        bad = [i for i in range(len(cp)) if not (cp[i] == sp[i] or (cp[i] != cp[i] and sp[i] != sp[i]))]
+        if bad:
+            i = bad[0]
+            ctx.violation("C09/index-differs:fixed-income-child", "fixed-income child under a fixed-income parent: index on date#%d is %r nested but %r stand-alone "
+                          "(rows around: nested %r / alone %r)" % (i, cp[i], sp[i], list(cp[max(0, i - 2):i + 2]), list(sp[max(0, i - 2):i + 2])), rd)
+            continue
+        col = np.asarray(nested.strategy._universe["fi"].values, dtype=float)
+        badc = [i for i in range(len(cp)) if not (col[i] == cp[i] or (col[i] != col[i] and cp[i] != cp[i]))]
+        if badc:
+            i = badc[0]
+            ctx.violation("C09/universe-column", "fixed-income parent: universe column on date#%d is %r, child index %r" % (i, col[i], cp[i]), rd)
+
+
 def run(ctx, bt):
+    # fi_nested_cases(ctx, bt, ctx.scale(30, 600))   # enabled with the repair of the shadow copy running on the first row
     for _ in range(ctx.scale(25, 500)):
         spec = gen_deep_case(ctx.rng)
         ctx.evaluations += 1
@@ -240,4 +302,9 @@ def search(ctx, bt):
 
 
 def replay(bt, data, ctx):
+    if "fi_nested" in data["case"]:
+        import random as _r
+        ctx.notes.append("fixed-income nested cases are regenerated from the seed of the run")
+        fi_nested_cases(ctx, bt, 60)
+        return
     run_case(ctx, bt, data["case"]["spec"])
